@@ -12,8 +12,9 @@ rsync -a --exclude .git /repo/ "$S/repo/"
 if [ "$patch" != "-" ]; then
   (cd "$S/repo" && git init -q . 2>/dev/null; git -C "$S/repo" apply --whitespace=nowarn "$patch") || { echo "patch failed"; rm -rf "$S"; exit 9; }
 fi
-cd /verif
-ALT=/verif/.build-alt-$(printf %s "$S/repo" | sha1sum | cut -c1-8)
+V=$(cd "$(dirname "$0")/.." && pwd)
+cd "$V"
+ALT=$V/.build-alt-$(printf %s "$S/repo" | sha1sum | cut -c1-8)
 VERIF_REPO="$S/repo" ./check "$@"
 rc=$?
 if [ -n "${KEEP_REPLAYS:-}" ]; then mkdir -p "$KEEP_REPLAYS"; cp -r "$ALT"/replays/. "$KEEP_REPLAYS"/ 2>/dev/null; fi
